@@ -47,6 +47,9 @@ type run struct {
 	Steps int
 	Mode  string
 
+	Epoch     int64 // unix second of 00:00 UTC on 1 January of EpochYear; what TLC sees is relative to it
+	EpochYear int
+
 	Out   parseOut
 	Nexts []nextEv
 	ZT    []interval
@@ -162,6 +165,8 @@ func (r *run) execute() {
 		carry = zone
 	}
 	start := r.Start
+	r.EpochYear = start.UTC().Year() - 1
+	r.Epoch = time.Date(r.EpochYear, 1, 1, 0, 0, 0, 0, time.UTC).Unix()
 	lo, hi := start.Unix()-2*86400, start.Unix()+1829*86400
 	limit := start.Unix() + 8*366*86400
 	type raw struct {
@@ -197,7 +202,7 @@ func (r *run) execute() {
 	}
 	r.ZT = zoneTable(zone, lo, hi)
 	for _, w := range raws {
-		e := nextEv{T: w.t.Unix() - e2000, TNs: w.t.Nanosecond(), Hang: w.hang, Wall: []int{0, 0, 0, 0, 0, 0, 0},
+		e := nextEv{T: w.t.Unix(), TNs: w.t.Nanosecond(), Hang: w.hang, Wall: []int{0, 0, 0, 0, 0, 0, 0},
 			TText: w.t.Format(time.RFC3339Nano) + " [" + w.t.In(zone).Format("2006-01-02T15:04:05.999999999 -07:00 Mon") + "]"}
 		switch {
 		case w.hang:
@@ -208,7 +213,7 @@ func (r *run) execute() {
 			e.Far = true
 			e.RText = w.res.Format(time.RFC3339Nano)
 		default:
-			e.R = w.res.Unix() - e2000
+			e.R = w.res.Unix()
 			e.RNs = w.res.Nanosecond()
 			z := w.res.In(zone)
 			e.Wall = []int{z.Year(), int(z.Month()), z.Day(), z.Hour(), z.Minute(), z.Second(), int(z.Weekday())}
@@ -220,13 +225,21 @@ func (r *run) execute() {
 
 // record appends the run to the batch.
 func (r *run) record(b *tv.Batch) int {
-	zt := r.ZT
-	if zt == nil {
-		zt = []interval{}
+	zt := []interval{}
+	for _, iv := range r.ZT {
+		zt = append(zt, interval{From: iv.From - r.Epoch, To: iv.To - r.Epoch, Off: iv.Off})
 	}
-	i := b.Start(tv.M{"x": r.X, "out": r.Out, "zt": zt, "text": r.Text, "zone": r.Zone, "local": r.Local, "carry": r.Carry})
+	if r.EpochYear == 0 {
+		r.EpochYear = 2000
+		r.Epoch = time.Date(2000, 1, 1, 0, 0, 0, 0, time.UTC).Unix()
+	}
+	i := b.Start(tv.M{"x": r.X, "out": r.Out, "zt": zt, "epochYear": r.EpochYear, "text": r.Text, "zone": r.Zone, "local": r.Local, "carry": r.Carry})
 	for _, e := range r.Nexts {
-		b.Ev("next", tv.M{"t": e.T, "tns": e.TNs, "zero": e.Zero, "r": e.R, "rns": e.RNs, "wall": e.Wall, "hang": e.Hang, "far": e.Far, "ttext": e.TText, "rtext": e.RText})
+		rr := e.R
+		if !e.Zero && !e.Hang && !e.Far {
+			rr -= r.Epoch
+		}
+		b.Ev("next", tv.M{"t": e.T - r.Epoch, "tns": e.TNs, "zero": e.Zero, "r": rr, "rns": e.RNs, "wall": e.Wall, "hang": e.Hang, "far": e.Far, "ttext": e.TText, "rtext": e.RText})
 	}
 	return i
 }
@@ -235,5 +248,5 @@ func (r *run) record(b *tv.Batch) int {
 func (r *run) replay() tv.M {
 	return tv.M{"expression": r.Text, "options": r.X.Places, "descriptors": r.X.Desc, "zone": r.Zone, "time.Local": r.Local, "start_carried_in": r.Carry,
 		"ast": r.X, "parse": r.Out, "next": r.Nexts, "zone_table": r.ZT, "mode": r.Mode,
-		"how": "cron.NewParser(options).Parse(expression), then Next(start) repeatedly; instants in the trace are seconds since 2000-01-01T00:00:00Z"}
+		"how": "cron.NewParser(options).Parse(expression), then Next(start) repeatedly; t and r are unix seconds (TLC sees them relative to 1 January of epoch_year)", "epoch_year": r.EpochYear}
 }
